@@ -197,6 +197,8 @@ Definition set_glyph_flags (b : zbuf) (m : N) (s : option nat) (e : option nat)
   if ((e <? s)%nat && interior && negb from_out)%bool then Error Overflow
   else if ((e <? s)%nat && negb interior && negb from_out)%bool
        then Ok (with_scratch b (N.lor (scratch b) SCRATCH_HAS_GLYPH_FLAGS))
+  else if ((e <? s)%nat && negb (out_mode b) && negb interior)%bool
+       then Ok (with_scratch b (N.lor (scratch b) SCRATCH_HAS_GLYPH_FLAGS))   (* from_out_buffer without output: empty loops *)
   else if ((e <? s)%nat && negb (out_mode b))%bool then Error Oob
   else if (interior && negb from_out && (e - s <? 2)%nat)%bool then Ok b
   else
